@@ -818,3 +818,22 @@ def same_bare_names(doc, rng):
                 r.kind = '>'
             seen.add(key)
     return True
+
+
+def namesake(doc):
+    """the same document without its enums: every enum-typed column keeps the type NAME as a plain / dotted / quoted type.
+    Parsed before `doc` in one process it shows whether what a name meant in an earlier document matters for the next one."""
+    import copy
+    da = copy.deepcopy(doc)
+    for t in da.tables:
+        for c in t.columns:
+            if c.type.kind == 'enum':
+                e = da.enums[c.type.enum]
+                if am.BARE_OK(e.name) and am.BARE_OK(e.schema):
+                    c.type = am.ColType('plain', e.name) if e.schema == 'public' else am.ColType('dotted', f'{e.schema}.{e.name}')
+                else:
+                    c.type = am.ColType('quoted', e.name)
+    da.enums = []
+    da.order = [(k_, i_) for k_, i_ in da.order if k_ != 'e']
+    da.classes = set(da.classes) - {'enum-named-like-table', 'dotted-enum-name'}
+    return da
